@@ -1,5 +1,6 @@
 import PyodaProofs.C15
 import PyodaProofs.C15Lemmas
+import PyodaProofs.C15Aware
 
 #print axioms Pyoda.C15.date_from_to_id
 #print axioms Pyoda.C15.time_from_to_id
@@ -26,3 +27,17 @@ import PyodaProofs.C15Lemmas
 #print axioms Pyoda.C15.dur_to_raises_iff_out_of_range
 #print axioms Pyoda.C15.off_from_raises_iff_out_of_range
 #print axioms Pyoda.C15.inst_from_raises_iff
+#print axioms Pyoda.C15.inst_aware_exact
+#print axioms Pyoda.C15.inst_aware_raises_iff
+#print axioms Pyoda.C15.inst_aware_to_id
+#print axioms Pyoda.C15.inst_aware_fixed
+#print axioms Pyoda.C15.aware_without_offset_raises
+#print axioms Pyoda.C15.odtFromAware_eq
+#print axioms Pyoda.C15.odt_aware_raises_iff
+#print axioms Pyoda.C15.odt_aware_error_is_valueError
+#print axioms Pyoda.C15.odt_aware_exact
+#print axioms Pyoda.C15.odt_aware_same_instant
+#print axioms Pyoda.C15.odt_aware_fixed
+#print axioms Pyoda.C15.odt_aware_to_id
+#print axioms Pyoda.C15.ldt_any
+#print axioms Pyoda.C15.time_any_from_to_id
